@@ -1377,13 +1377,22 @@ func (ex *Exec) iterNext(it *IterV, ins *ssa.Next) Value {
 			}
 		}
 		if !b.IsConst() {
-			// symbolic content: harnesses must restrict such strings to ASCII
 			ascii := tf.Ult(b, tf.Const(8, 0x80))
-			if v, ok := ex.known(ascii); !(ok && v) {
-				if ex.feasible(tf.BNot(ascii)) {
-					panic(unsupported{"range over symbolic string that may contain non-ASCII bytes at " + ex.posStr(ex.curPos)})
+			if !ex.branch(ascii) {
+				// a non-ASCII lead byte: the decoded rune and its width are over-approximated - any rune >= 0x80
+				// (including the replacement character) of any width 1..4 that still fits into the string
+				ex.timeSeq++
+				r := tf.Var(fmt.Sprintf("rune#%d.%d", len(ex.decs), ex.timeSeq), 32)
+				ex.addPC(tf.Ule(tf.Const(32, 0x80), r))
+				ex.addPC(tf.Ule(r, tf.Const(32, 0x10FFFF)))
+				w := 1 + ex.choice(4)
+				if !ex.feasible(tf.Ule(tf.Const(64, uint64(it.Pos+w)), n)) {
+					panic(pathEnd{"rune wider than the rest of the string"})
 				}
-				ex.learn(ascii)
+				ex.addPC(tf.Ule(tf.Const(64, uint64(it.Pos+w)), n))
+				it.Pos += w
+				ex.intrUsed["range over string: non-ASCII bytes decoded as an arbitrary rune of width 1..4 (over-approximation)"] = true
+				return TupleV{BoolV{tf.True}, IntV{pos}, IntV{r}}
 			}
 		}
 		it.Pos++
